@@ -60,6 +60,8 @@ def run(ctx):
     from .common import RuleProxy
     from . import C09
     C09.chains(RuleProxy(ctx, {'C09-3.chain': 'C10-8.limits'}))
+    # no unit regenerates above its published limit: the drivetrain's clamp (clause of C09-4)
+    C09.run(RuleProxy(ctx, {'C09-4.bound': 'C10-8.limits'}, key_filter=lambda k: 'regen' in k))
     # the share a unit was assigned is the power its drivetrain is asked for: handed down unchanged from the consist loop to the
     # electric drivetrain of every powertrain type (the consist's own split and the shaft power of the engine are other quantities)
     from .common import value_passthrough
